@@ -269,10 +269,20 @@ func orderAndCopies(e *Env) {
 	if n <= 20 && g.Pct(15) {
 		crowdVerb = verbs[g.Intn(len(verbs))]
 	}
+	// in some runs the client has no background handler at all to begin with, and
+	// the first ones are registered by a foreground handler while its own event
+	// is in flight (the event's background dispatch may or may not see them): a
+	// handler registered that late still gets, per invocation, one parsed event -
+	// never an event twice, never another event's contents
+	lateBG := c15 && g.Pct(35)
+	lateAt := g.Intn(n)
 	addHandlers := func(verb string) {
 		nf := g.Range(1, 4)
 		nb := g.Range(0, 2)
-		if verb == crowdVerb {
+		if lateBG {
+			nb = 0
+		}
+		if verb == crowdVerb && !lateBG {
 			if g.Bool() {
 				nf = g.Range(9, 19)
 			} else {
@@ -442,14 +452,61 @@ func orderAndCopies(e *Env) {
 	if c15 {
 		for k := g.Range(2, 3); k > 0; k-- {
 			s.c.Handle("AWAY", bareHandler("fg"))
-			s.c.HandleBG("AWAY", bareHandler("bg"))
 			s.c.Handle(client.CONNECTED, bareHandler("fg"))
-			s.c.HandleBG(client.DISCONNECTED, bareHandler("bg"))
 			s.c.Handle(client.REGISTER, bareHandler("fg"))
 			if barePing {
 				s.c.Handle("PING", bareHandler("fg"))
+			}
+			if lateBG {
+				continue
+			}
+			s.c.HandleBG("AWAY", bareHandler("bg"))
+			s.c.HandleBG(client.DISCONNECTED, bareHandler("bg"))
+			if barePing {
 				s.c.HandleBG("PING", bareHandler("bg"))
 			}
+		}
+	}
+	lateSeen := map[int]map[int]int{} // late handler -> event -> invocations
+	if lateBG {
+		e.S.Count("probe.first-background-handlers-registered-while-an-event-is-in-flight")
+		armed := true
+		for _, v := range verbs {
+			v := v
+			s.c.HandleFunc(v, func(c *client.Conn, l *client.Line) {
+				if !armed || seqOf(l) < lateAt {
+					return
+				}
+				armed = false
+				for k := g.S.Choose(3) + 1; k > 0; k-- {
+					id := nh
+					nh++
+					lateSeen[id] = map[int]int{}
+					c.HandleBG(evs[seqOf(l)].verb, client.HandlerFunc(func(c *client.Conn, l *client.Line) {
+						q := seqOf(l)
+						e.Check()
+						if q < 0 || q >= len(evs) {
+							e.Violation("line-altered", "background handler %d, registered while an event was in flight, received a line without a valid sequence number: Cmd=%q Args=%q", id, l.Cmd, l.Args)
+							return
+						}
+						if d := lineDiff(l, evs[q].exp); d != "" {
+							e.Violation("line-altered", "background handler %d, registered while an event was in flight, received a line that is not a parsed event (sequence number %d): %s", id, q, d)
+							return
+						}
+						lateSeen[id][q]++
+						if lateSeen[id][q] > 1 {
+							e.Violation("line-altered", "background handler %d, registered while an event was in flight, was invoked %d times with the contents of event %d: one of those invocations was for another event and got this one's line", id, lateSeen[id][q], q)
+							return
+						}
+						for i := range l.Args {
+							l.Args[i] = "late-scribble"
+						}
+					}))
+				}
+				for i := g.S.Choose(4) * 4; i > 0; i-- {
+					simrt.Sleep(0)
+				}
+			})
 		}
 	}
 	for k := g.Range(1, 2); k > 0; k-- {
